@@ -2,6 +2,7 @@ package engines
 
 import (
 	"fmt"
+	"sort"
 	"strings"
 	"time"
 
@@ -389,6 +390,50 @@ func panSvcSpace() *panSpace {
 	}}
 }
 
+// service-group member order: the same member set in every order on both
+// sides (a firewall keeps the order in which members were added)
+func panSvcOrderSpace() *panSpace {
+	all := []string{"tcp 80", "udp 53", "tcp 81"}
+	var lists [][]string
+	for _, sub := range subsets(3) {
+		if len(sub) == 0 {
+			continue
+		}
+		for _, p := range perms(len(sub)) {
+			var l []string
+			for _, i := range p {
+				l = append(l, all[sub[i]])
+			}
+			lists = append(lists, l)
+		}
+		// perms() leaves out the identity
+		var l []string
+		for _, i := range sub {
+			l = append(l, all[i])
+		}
+		lists = append(lists, l)
+	}
+	n := int64(len(lists))
+	return &panSpace{name: "svc-order", n: n * n, gen: func(i int64) (string, core.Files) {
+		mk := func(ms []string) string {
+			r := panRuleT{"allow", "z1", "z2", []string{"a1"}, []string{"a3"}, []string{"sg1"}, ""}
+			return panConfig(panVsysT{name: "vsys1", rules: []panRuleT{r}, sgroup: map[string][]string{"sg1": ms}})
+		}
+		a, b := lists[i/n], lists[i%n]
+		if setOfStrings(a) != setOfStrings(b) {
+			// other member sets: space "svc"
+			b = a
+		}
+		return mk(a), core.Files{Main: mk(b)}
+	}}
+}
+
+func setOfStrings(l []string) string {
+	c := append([]string(nil), l...)
+	sort.Strings(c)
+	return strings.Join(c, ",")
+}
+
 // several vsys
 func panVsysSpace() *panSpace {
 	rs := [][]panRuleT{{}, {panRules[0]}, {panRules[1], panRules[2]}}
@@ -661,7 +706,7 @@ func (x *panx) runChain() {
 }
 
 func panSpaces(ctx *core.Ctx) []*panSpace {
-	l := []*panSpace{panRuleSpace("rules", 6, 2), panObjSpace("objs", 4), panSharedSpace(), panTwoGroupSpace(), panSvcSpace(), panVsysSpace(), panCorpusSpace()}
+	l := []*panSpace{panRuleSpace("rules", 6, 2), panObjSpace("objs", 4), panSharedSpace(), panTwoGroupSpace(), panSvcSpace(), panSvcOrderSpace(), panVsysSpace(), panCorpusSpace()}
 	if ctx.Thorough() {
 		l = append(l, panRuleSpace("rules-x", 7, 3), panObjSpace("objs-x", 5))
 	}
